@@ -184,7 +184,7 @@ def run(ck: vlib.Check):
     if exe is None or mexe is None:
         return
     # ------------------------------------------------------------------ (a) streams
-    n_streams = 500 if quick else 6000
+    n_streams = 1500 if quick else 8000
     streams = []
     for i in range(n_streams):
         small = i % 3 == 0
@@ -256,17 +256,26 @@ def run(ck: vlib.Check):
     wz = G.enc_file(fz)
     pz = fdir / "zero_events.raw"
     write_file(pz, wz)
+    abi, alog = G.build_abi(NATIVE_DIR)          # route (b'): working-tree Python reader driving the working-tree C++ parser
+    if abi is None:
+        ck.tie_broken("native-build", "rawabi.cc", alog)
     calls, meta = [], []
+    n_native = 0
     for i, (f, w, p) in enumerate(files):
-        variants = [(0, None, None)]
-        variants.append((63, rng.choice([1, 2, 3, 1000]), rng.choice([None, 1, 3])))
+        variants = [(0, None, None, False)]
+        variants.append((63, rng.choice([1, 2, 3, 1000]), rng.choice([None, 1, 3]), False))
+        if abi is not None:
+            variants.append((rng.choice([63, 63, rng.randrange(1, 64)]), rng.choice([1, 2, 1000]), rng.choice([None, 2]), True))
         if i % 3 == 0:
-            variants.append((rng.randrange(1, 64), rng.choice([1, 2, 5]), rng.choice([None, 2])))
-        for mask, pb, mw in variants:
+            variants.append((rng.randrange(1, 64), rng.choice([1, 2, 5]), rng.choice([None, 2]), False))
+        for mask, pb, mw, native in variants:
             subs = None if mask == 0 else [d for k, d in enumerate(G.DETS) if mask >> k & 1]
             calls.append({"id": len(calls), "paths": [p], "n_blocks": -1, "pb": pb, "subs": subs, "max_workers": mw,
-                          "delay_seed": rng.randrange(1 << 30) if mw != 1 and pb in (1, 2) else None})
+                          "delay_seed": rng.randrange(1 << 30) if mw != 1 and pb in (1, 2) else None,
+                          "native_so": str(abi) if native else None})
+            n_native += native
             meta.append((i, mask, pb))
+    ck.cov["file_calls_through_working_tree_cpp_via_ctypes"] = n_native
     calls.append({"id": len(calls), "paths": [str(pz)], "n_blocks": -1, "pb": None, "subs": None, "max_workers": None, "guard": True})
     meta.append(("zero", 0, None))
     jp = ck.bdir / "jobs.json"
@@ -296,7 +305,7 @@ def run(ck: vlib.Check):
     permuted = 0
     for c, (fi, mask, pb), r, m in zip(calls, meta, impl, mans):
         w = wz if fi == "zero" else files[fi][1]
-        ck.case(["file", mask, pb, c["max_workers"], w])
+        ck.case(["file", mask, pb, c["max_workers"], bool(c.get("native_so")), w])
         outcomes["file:" + r["outcome"]] += 1
         val = r["values"][0] if r.get("values") else None
         order = (r.get("orders") or [[]])[0] if r.get("orders") else []
